@@ -196,6 +196,68 @@ def write_replay(prop, res, v, idx):
     return os.path.relpath(path, ROOT)
 
 
+def _child(conn, a):
+    try:
+        conn.send(_worker(a))
+    finally:
+        conn.close()
+
+
+def _lost(a, why):
+    """result record of a task whose worker did not deliver (hard deadline, or it died)"""
+    ci, gi, tier, seed = a
+    c = load_contracts()[ci]
+    cfg = list(c.configs())[gi]
+    return dict(contract=c.name, cfg=run.cfg_key(cfg), props=list(c.props), tier=getattr(c, "tier", "P"), obligations=[],
+                paths=0, oor=None, cover=None, violations=[], bounded=[], conform=None, secs=0.0, ci=ci, gi=gi,
+                undecided=[dict(obligation="worker", reason=why)])
+
+
+def run_tasks(args, jobs, deadline_s):
+    """one forked process per (contract, configuration), at most `jobs` at a time, each under
+    a hard wall-clock deadline: a solver call that ignores its own timeout cannot hang the
+    check (the task is then reported undecided, never as a violation)"""
+    ctxm = mp.get_context("fork")
+    pending = list(enumerate(args))
+    running = {}
+    results = [None] * len(args)
+    while pending or running:
+        while pending and len(running) < jobs:
+            i, a = pending.pop(0)
+            parent, child = ctxm.Pipe(duplex=False)
+            p = ctxm.Process(target=_child, args=(child, a))
+            p.start()
+            child.close()
+            running[i] = (p, parent, time.time(), a)
+        progressed = False
+        for i, (p, conn, t0, a) in list(running.items()):
+            if conn.poll(0):
+                try:
+                    results[i] = conn.recv()
+                except (EOFError, OSError):
+                    results[i] = _lost(a, "worker died before delivering its result")
+                p.join(5)
+                del running[i]
+                progressed = True
+            elif not p.is_alive():
+                results[i] = _lost(a, "worker died (exit code %s)" % p.exitcode)
+                del running[i]
+                progressed = True
+            elif time.time() - t0 > deadline_s:
+                p.kill()
+                p.join(5)
+                results[i] = _lost(a, "hard deadline of %d s reached (solver call ignoring its timeout); not decided" % deadline_s)
+                del running[i]
+                progressed = True
+        if not progressed:
+            time.sleep(0.05)
+    return results
+
+
+def _deadline(tier):
+    return int(os.environ.get("PVC_TASK_DEADLINE", "3600" if tier == "thorough" else "600"))
+
+
 def _known(open_findings, res, ob_name):
     """the open finding that names this call site: contract, configuration(s) and the exact
     obligation(s); any other failing obligation is still a violation"""
@@ -269,9 +331,7 @@ def check_property(prop, tier, seed, jobs):
         os.environ["PVC_XCHECK"] = xdir
     args = [(ci, gi, tier, seed) for ci, gi in tasks]
     if jobs > 1 and len(args) > 1:
-        ctxm = mp.get_context("fork")
-        with ctxm.Pool(min(jobs, len(args)), maxtasksperchild=1) as pool:
-            results = pool.map(_worker, args, chunksize=1)
+        results = run_tasks(args, min(jobs, len(args)), _deadline(tier))
     else:
         results = [_worker(a) for a in args]
 
@@ -425,8 +485,7 @@ def update_lock(jobs):
     tasks = tasks_for(None)
     args = [(ci, gi, "quick", 0) for ci, gi in tasks]
     ctxm = mp.get_context("fork")
-    with ctxm.Pool(jobs, maxtasksperchild=1) as pool:
-        results = pool.map(_worker, args, chunksize=1)
+    results = run_tasks(args, jobs, _deadline("quick"))
     proved = set()
     for res in results:
         for ob in res["obligations"]:
